@@ -99,11 +99,11 @@ WellFormed(r, tbl, Cc) ==
              /\ Range(r.e) \cap lead = {} /\ Range(r.c) \cap lead = {}
 
 \* one range on its own (calcParticipantPeers called directly): empty, or drawn from the table, duplicate free, of the
-\* size its exit rule promises, avoiding the leading proposers
+\* minimum size, avoiding the leading proposers
 WellFormedPeers(out, tbl, Nn, Cc, kind, props) ==
     out = <<>> \/ /\ Range(out) \subseteq Range(tbl) /\ NoDup(out)
                   /\ (kind = "P" => Len(out) > Cc \/ Len(out) >= Nn)
-                  /\ (kind # "P" => (Len(out) = 2 * Cc + 1 \/ Len(out) >= Nn)
+                  /\ (kind # "P" => Len(out) >= 2 * Cc
                                     /\ Range(out) \cap {props[i] : i \in 1..(IF Cc < Len(props) THEN Cc ELSE Len(props))} = {})
 
 (* ---------------- P-MC: all seeds x tables of a scaled layout ---------------- *)
@@ -115,10 +115,13 @@ Init == vrf0 \in [1..VrfLen -> 0..255] /\ tbl0 \in Tables
 Spec == Init /\ [][UNCHANGED svars]_svars
 PropC40 == LET Nn == Peers(tbl0)
                Cc == Nn \div 3
-               r  == Build(vrf0, tbl0, Nn, Cc)
-           IN /\ WellFormed(r, tbl0, Cc)
-              /\ \A kind \in {"P", "E", "C"} :
-                   LET pr == IF r.err THEN <<>> ELSE r.p
-                       o  == CalcPeers(vrf0, tbl0, Nn, Cc, kind, IF kind = "P" THEN <<>> ELSE pr)
-                   IN WellFormedPeers(o, tbl0, Nn, Cc, kind, pr)
+           IN WellFormed(Build(vrf0, tbl0, Nn, Cc), tbl0, Cc)
+\* each range on its own, with the proposers of the selection and with an arbitrary proposer list drawn from the seed
+PropC40Ranges ==
+    LET Nn == Peers(tbl0)
+        Cc == Nn \div 3
+        r  == Build(vrf0, tbl0, Nn, Cc)
+        pr == IF r.err THEN <<tbl0[(vrf0[1] % Len(tbl0)) + 1], tbl0[(vrf0[2] % Len(tbl0)) + 1]>> ELSE r.p
+    IN \A kind \in {"P", "E", "C"} :
+         WellFormedPeers(CalcPeers(vrf0, tbl0, Nn, Cc, kind, IF kind = "P" THEN <<>> ELSE pr), tbl0, Nn, Cc, kind, pr)
 =============================================================================
